@@ -70,9 +70,10 @@ def fam_tables(sess, types=('Int', 'Float', 'Bool', 'DateTime')):
                 else:
                     t = ctx.fresh_bv('t', 64); a = ctx.fresh_bv('a', 64); b = ctx.fresh_bv('b', 64)
                     ctx.assume(a <= b)
-                    g['Size'] = E.mk_variant(prog, 'DateTime', dt_from=some(DateTimeV(t)), dt_to=some(DateTimeV(t)))
+                    ns = ctx.fresh_bv('nanos', 32); ctx.assume(z3.ULT(ns, BitVecVal(1000000000, 32)))      # file times carry a sub-second part; the property is about whole seconds
+                    g['Size'] = E.mk_variant(prog, 'DateTime', dt_from=some(DateTimeV(t, ns)), dt_to=some(DateTimeV(t, ns)))
                     g['Uid'] = E.mk_variant(prog, 'DateTime', dt_from=some(DateTimeV(a)), dt_to=some(DateTimeV(b)))
-                    sym = {'t': t, 'a': a, 'b': b}; ref = REF_DT[op](t, a, b)
+                    sym = {'t': t, 'a': a, 'b': b, 'ns': ns}; ref = REF_DT[op](t, a, b)
                 r = E.run_conforms(ctx, prog, E.leaf_cmp(prog, E.op_enum(prog, op)))
                 return sym, r, ref
 
